@@ -522,6 +522,9 @@ def amp_pdf_mcid():
             return int.__eq__(self, other)
         __hash__ = int.__hash__
 
+    import inspect
+    used = [False]
+
     def run(n):
         ops_ = []
         for k in range(n):
@@ -530,6 +533,7 @@ def amp_pdf_mcid():
 
         class Stream:
             def __init__(self, *a, **k):
+                used[0] = True
                 self.operations = ops_
 
         class Page:
@@ -539,18 +543,37 @@ def amp_pdf_mcid():
                 return object()
         real = PX.ContentStream
         PX.ContentStream = Stream
+        worst = None
         try:
-            CInt.count = 0
-            out = PX._extract_page_mcid_data(Page())
+            # every module-level function of one required argument that builds a ContentStream from what it is given
+            for name, f in sorted(vars(PX).items()):
+                if not (inspect.isfunction(f) and f.__module__ == PX.__name__):
+                    continue
+                try:
+                    req = [p_ for p_ in inspect.signature(f).parameters.values() if p_.default is inspect.Parameter.empty and p_.kind in (p_.POSITIONAL_ONLY, p_.POSITIONAL_OR_KEYWORD)]
+                except (TypeError, ValueError):
+                    continue
+                if len(req) != 1:
+                    continue
+                used[0] = False
+                CInt.count = 0
+                try:
+                    r = f(Page())
+                    if inspect.isgenerator(r):
+                        list(r)
+                except Exception:  # noqa
+                    pass
+                if used[0] and (worst is None or CInt.count > worst):
+                    worst = CInt.count
         finally:
             PX.ContentStream = real
-        if len(out[1]) != n:
-            raise ValueError("stand-in stream not consumed")
-        return CInt.count
+        if worst is None:
+            raise ValueError("no function consumed the stand-in stream")
+        return worst
     try:
         c1, c2 = run(500), run(2000)
         inputs = {"builder": "content stream of n marked-content sequences `/P <</MCID k>> BDC EMC` with distinct k (n = 500 and 2000; 24 bytes each before deflate)",
-                  "measure": "number of == comparisons on MCID values in _extract_page_mcid_data"}
+                  "measure": "number of == comparisons on MCID values in the function that walks the operators (stand-in ContentStream)"}
         obs = f"{c1} comparisons for 1000 operators, {c2} for 4000 operators ({c2 // 4000} per operator)"
         if c2 > 50 * 4000 and c2 >= 8 * max(c1, 1):
             blob = _mcid_pdf(6000)
@@ -576,7 +599,7 @@ def amp_pdf_mcid():
         f"{la} bytes took {a:.3f}s, {lb} bytes took {b:.3f}s (x{ratio:.1f} for x4 sequences)"
 
 
-AMPLIFIERS = (("pdf_extractor.py::_extract_page_mcid_data/amp-bounded#list-membership", amp_pdf_mcid), ("ppt_extractor.py::*/amp-bounded#no-rescan", amp_ppt_consumers), ("rtf_extractor.py::_RtfParser._strip_rtf_full_with_pages/amp-bounded#carve", amp_rtf), ("xls_extractor.py::_extract_images_from_workbook/amp-bounded#carve", amp_xls), ("_extract_png_images_from_bytes/amp-bounded#carve", amp_png), ("_extract_images_from_word_document/amp-bounded#carve", amp_dib),
+AMPLIFIERS = (("pdf_extractor.py::*/amp-bounded#list-membership", amp_pdf_mcid), ("ppt_extractor.py::*/amp-bounded#no-rescan", amp_ppt_consumers), ("rtf_extractor.py::_RtfParser._strip_rtf_full_with_pages/amp-bounded#carve", amp_rtf), ("xls_extractor.py::_extract_images_from_workbook/amp-bounded#carve", amp_xls), ("_extract_png_images_from_bytes/amp-bounded#carve", amp_png), ("_extract_images_from_word_document/amp-bounded#carve", amp_dib),
               ("ppt_extractor.py::_iter_records/amp-bounded#carve", amp_ppt), ("ppt_extractor.py::*/amp-bounded#nested-scans", amp_ppt),
               ("mbox_email_extractor.py::*/amp-bounded#no-self-suffix", amp_mbox), ("policy#xml-parsed", amp_xml_all))
 
